@@ -31,6 +31,18 @@ package clone
 // one; a single 4.7 kb fragment that closes on itself), as fragments and, for
 // GoldenGate, cut out of carriers of that size. Nothing else changes: one
 // construct per ring, none missing, none spurious, none repeated.
+//
+// CIRCULAR PARTS AT EVERY ROTATION (c09RotWhere, classes circular-part-rotated,
+// circular-part-rotated-cut-spans-origin, circular-part-rotated-site-spans-origin).
+// A circular part is a ring; which base its stored string starts at is an
+// accident of the file it came from. The carriers above are stored from a random
+// origin outside the sites, skips and overhangs. The GoldenGate clause therefore
+// also runs small designs (1..3 junctions) in which every circular part in turn
+// is supplied stored from EACH of its bases (all n rotations, exhaustive), the
+// other parts as drawn: the stored origin then also falls inside each
+// recognition site (forward and reverse), inside its skip and inside its
+// overhang. The rings demanded are the same at every rotation. These designs
+// come from a random stream of their own and are run after the other cases.
 
 import (
 	"context"
@@ -703,6 +715,52 @@ func c09Carrier(rng *rand.Rand, e c09Enzyme, frags []c09Frag, flips []bool, circ
 	return Part{}, false
 }
 
+// ---- circular parts at every rotation ----
+
+const (
+	c09RotPlain = "circular-part-rotated"
+	c09RotCut   = "circular-part-rotated-cut-spans-origin"
+	c09RotSite  = "circular-part-rotated-site-spans-origin"
+)
+
+// c09RotWhere says where the origin of the stored string of a circular part
+// falls: c09RotSite when an occurrence of the recognition site, on either
+// strand, runs over it (begins in the last len(site)-1 bases and ends in the
+// first ones); else c09RotCut when the stretch from a site to the far end of
+// its overhang (site, skip, overhang) runs over it; else c09RotPlain.
+func c09RotWhere(stored string, e c09Enzyme) string {
+	s := strings.ToUpper(stored)
+	n, l := len(s), len(e.site)
+	reach := l + e.skip + 4
+	where := c09RotPlain
+	for _, at := range c09Occ(s, true, e.site) { // site, then skip and overhang to its right
+		if at+l > n {
+			return c09RotSite
+		}
+		if at+reach > n {
+			where = c09RotCut
+		}
+	}
+	for _, at := range c09Occ(s, true, c09RC(e.site)) { // overhang and skip to its left, then the site
+		if at+l > n {
+			return c09RotSite
+		}
+		if at-(e.skip+4) < 0 {
+			where = c09RotCut
+		}
+	}
+	return where
+}
+
+// c09RotClass: a failure at a rotation of a circular part is a shape of its own
+// (a missing ring takes the name of the place of the origin).
+func c09RotClass(class, where string) string {
+	if class == "ring-missing" {
+		return where
+	}
+	return class + "-with-" + where
+}
+
 // ---- child process for anything that may not terminate ----
 
 const c09ChildEnv = "VERIF_C09_CHILD_CASE"
@@ -903,6 +961,13 @@ func TestVerifC09(t *testing.T) {
 		}
 		return s + "; no decoys; same demands: exactly one construct per ring (classes ring-missing" + c09LongSuffix + ", construct-spurious" + c09LongSuffix + ", construct-duplicated" + c09LongSuffix + ")"
 	}
+	// circular parts supplied at every rotation: a stream of their own as well
+	orng := rand.New(rand.NewSource(verifSeed() + 3909))
+	nRot := 9
+	if thorough {
+		nRot = 90
+	}
+	rotDom := fmt.Sprintf("plus circular parts at EVERY rotation: %d designed assemblies (1..3 junctions, 1..2 alternatives, at most 4 rings, 0..1 decoys, same exclusion, BsaI, BbsI, BtgZI in turn) wrapped and carried as above, one cassette per part (one time in four two), on circular and linear parts (at least one circular; carriers of about 30..270 bases); every circular part in turn is supplied stored from each of its n bases (all n rotations of its stored string, exhaustive; the other parts as drawn), so that the stored origin also falls inside each recognition site, forward and reverse (5 rotations each), inside its skip and inside its overhang, and inside the fragment and the backbone; one GoldenGate call per rotation, at GOMAXPROCS 1, 2, 16 in turn; the rings demanded are those of the designed fragments at every rotation (class %s when a ring is missing at a rotation at which a recognition site of either strand runs over the stored origin, %s when none does but the stretch site-skip-overhang of a site does, %s at the other rotations; other failures <class>-with-<that>)", nRot, c09RotSite, c09RotCut, c09RotPlain)
 	bothDom := "designs with a fragment that fits both ways: junction 1 is the reverse complement of junction 0 (e.g. AACG and CGTT), so that a fragment of slot 0 turned around has the same two overhangs and the pool has one ring with it in either orientation; 2 junctions (both slots of that kind) or 3 junctions (in the orientations in which no supplied fragment sees a cycle that avoids its own leading overhang; the others are pools (e) of the termination clause), 1..2 alternatives per slot, 0..1 decoys, random orientation and order, at least two distinct rings by the enumerator (class " + c09BothWaysClass + " when one is missing)"
 	hung := false
 	// guarded in-process call: these pools have no cycle that excludes a seed,
@@ -995,7 +1060,7 @@ func TestVerifC09(t *testing.T) {
 
 	// ---- GoldenGate on carrier parts ----
 	{
-		v := newVerifRun("C09", c09ClauseGG, fmt.Sprintf("sampled, %d designed assemblies (1..5 junctions, 1..3 alternatives, at most %d rings, 0..2 decoys, same exclusion as above) plus %d large combinatorial libraries with more than 128 distinct rings each (5..6 junctions, alternatives per slot %v, 0..1 decoys; class ring-missing-in-large-library) whose fragments are each wrapped in BsaI, BbsI or BtgZI sites and carried, one or two per part, on circular parts (stored from a random origin that does not fall inside a site, its skip or its overhang, so that C10's origin defect is not in play) and linear parts, cassettes in either orientation, a quarter of the parts in lower case, plus parts without any site or with a single site; parts shuffled; each run %d times at GOMAXPROCS 1, 2, 16; result compared as above with the rings of the designed fragments; non-trivial as above; plus, wrapped and carried in the same way, %d %s; plus, wrapped and carried in the same way (BsaI, BbsI, BtgZI in turn; the assemblies supplied as designed: one cassette per linear part, none turned around; the carriers are then longer than 4096 bp themselves), %s", nGG, map[bool]int{false: 27, true: 81}[thorough], len(largeGG), largeGG, (reps+1)/2, nBothGG, bothDom, longDom(longGG, nLongExtraGG)))
+		v := newVerifRun("C09", c09ClauseGG, fmt.Sprintf("sampled, %d designed assemblies (1..5 junctions, 1..3 alternatives, at most %d rings, 0..2 decoys, same exclusion as above) plus %d large combinatorial libraries with more than 128 distinct rings each (5..6 junctions, alternatives per slot %v, 0..1 decoys; class ring-missing-in-large-library) whose fragments are each wrapped in BsaI, BbsI or BtgZI sites and carried, one or two per part, on circular parts (stored from a random origin that does not fall inside a site, its skip or its overhang, so that C10's origin defect is not in play) and linear parts, cassettes in either orientation, a quarter of the parts in lower case, plus parts without any site or with a single site; parts shuffled; each run %d times at GOMAXPROCS 1, 2, 16; result compared as above with the rings of the designed fragments; non-trivial as above; plus, wrapped and carried in the same way, %d %s; plus, wrapped and carried in the same way (BsaI, BbsI, BtgZI in turn; the assemblies supplied as designed: one cassette per linear part, none turned around; the carriers are then longer than 4096 bp themselves), %s; "+rotDom, nGG, map[bool]int{false: 27, true: 81}[thorough], len(largeGG), largeGG, (reps+1)/2, nBothGG, bothDom, longDom(longGG, nLongExtraGG)))
 		v.Sampled()
 		largeRetry := 0
 		for i := 0; i < nGG+len(largeGG)+nBothGG+len(longGG) && !hung; i++ {
@@ -1139,6 +1204,99 @@ func TestVerifC09(t *testing.T) {
 					}
 					c09Compare(got, want, func(class, detail string) {
 						v.Fail(c09LongClass(c09BothClass(c09LargeClass(class, want), d), d), input, detail)
+					})
+				}
+			}
+		}
+		// circular parts at every rotation (own stream orng; run after the cases above)
+		for i := 0; i < nRot && !hung; i++ {
+			e := c09Enzymes[i%3]
+			avoid := []string{e.site, c09RC(e.site)}
+			k := 1 + orng.Intn(3)
+			d := c09MakeDesign(orng, k, 2, 4, orng.Intn(2), avoid)
+			flips := make([]bool, len(d.pool))
+			asCut := make([]c09Frag, len(d.pool))
+			safe := false
+			for try := 0; try < 50 && !safe; try++ {
+				for j, f := range d.pool {
+					flips[j] = orng.Intn(2) == 0
+					asCut[j] = f
+					if flips[j] {
+						asCut[j] = c09Flip(f)
+					}
+				}
+				safe = !c09SeedFreeCycle(asCut)
+			}
+			if !safe {
+				continue
+			}
+			want := c09Rings(d.pool)
+			var parts []Part
+			okBuild := true
+			for j := 0; j < len(d.pool); {
+				take := 1
+				if j+1 < len(d.pool) && orng.Intn(4) == 0 {
+					take = 2
+				}
+				circular := j == 0 || orng.Intn(3) > 0
+				p, ok := c09Carrier(orng, e, d.pool[j:j+take], flips[j:j+take], circular)
+				if !ok {
+					okBuild = false
+					break
+				}
+				parts = append(parts, p)
+				j += take
+			}
+			if !okBuild {
+				continue
+			}
+			orng.Shuffle(len(parts), func(a, b int) { parts[a], parts[b] = parts[b], parts[a] })
+			for ci := range parts {
+				if !parts[ci].Circular {
+					continue
+				}
+				stored := parts[ci].Sequence
+				n := len(stored)
+				for r := 0; r < n && !hung; r++ {
+					rot := append([]Part{}, parts...)
+					rot[ci] = Part{Sequence: stored[r:] + stored[:r], Circular: true}
+					where := c09RotWhere(rot[ci].Sequence, e)
+					p := c09Procs[r%3]
+					v.Case(fmt.Sprintf("%s %s parts=%d circular-part=%d rotation=%d/%d %s procs=%d #rot%d", e.name, d.key(), len(parts), ci, r, n, where, p, i), k >= 2 || len(want) > 1)
+					runtime.GOMAXPROCS(p)
+					var got []Part
+					var err error
+					var perr interface{}
+					ok := call(func() {
+						defer func() { perr = recover() }()
+						got, err = GoldenGate(rot, e.name)
+					})
+					var ptxt []string
+					for pi, q := range rot {
+						shape := "linear:"
+						if q.Circular {
+							shape = "circular:"
+						}
+						if pi == ci {
+							shape = fmt.Sprintf("circular(stored from base %d of the %d of the string first drawn):", r, n)
+						}
+						ptxt = append(ptxt, shape+q.Sequence)
+					}
+					input := fmt.Sprintf("GOMAXPROCS=%d enzyme=%s %s; parts= %s ; designed fragments= %s", p, e.name, where, strings.Join(ptxt, " "), c09PoolText(d.pool))
+					if !ok {
+						vTerm.Fail("no-cycle-excluding-seed", input, "GoldenGate had not returned after 60 s although no cycle avoids a seed; in-process runs abandoned")
+						break
+					}
+					if perr != nil {
+						v.Fail(c09RotClass("panic", where), input, fmt.Sprint("panic: ", perr))
+						continue
+					}
+					if err != nil {
+						v.Fail(c09RotClass("error", where), input, "error: "+err.Error())
+						continue
+					}
+					c09Compare(got, want, func(class, detail string) {
+						v.Fail(c09RotClass(c09LargeClass(class, want), where), input, detail)
 					})
 				}
 			}
